@@ -2032,7 +2032,7 @@ theorem C02_pipeline_limits (nw : Network) (hn : NetHyp nw) (hovf : OvfNode nw) 
 theorem C11_candidates_limits (nw : Network) (hn : NetHyp nw) (hovf : OvfNode nw) {limit threshold : Option Nat}
     {s : Schedule} {last : SwapInfo} {cands : List Swaps.Candidate} (hinv : InvL nw s)
     (h : Swaps.neighborsOf nw limit threshold s last = .ok cands) : ∀ c ∈ cands, InvL nw c.sched :=
-  C11A.neighbors_invF (stepInv_limits hn hovf) hinv h
+  C11A.neighbors_invF (stepInv_limits hn hovf).toStepInv0 hinv h
 
 /-- the limits in the vocabulary of the depot check: `spawnedCount` / `spawnedTotal` -/
 theorem limits_counts {nw : Network} {u : DepotUsage} (hl : Limits nw u) (d : Nat) (hd : d ≠ nw.overflowDepot) :
